@@ -1346,6 +1346,10 @@ class Structure(UniqueMixin, metaclass=StructMeta):
         result = cls.__new__(cls)
         memo[id(self)] = result
         result._skip_validation = True  # pylint: disable=attribute-defined-outside-init
+        # __setattr__ consults _none_fields for every field of an _enable_undefined_value class: it must
+        # exist before the fields are re-set, wherever it happens to sit in __dict__ (after unpickling: last)
+        if "_none_fields" in self.__dict__:
+            result.__dict__["_none_fields"] = set()
         for k, v in self.__dict__.items():
             setattr(result, k, deepcopy(v, memo))
         delattr(result, "_skip_validation")
